@@ -164,7 +164,7 @@ def run(case, res: Result):
         tb = traceback.extract_tb(exc.__traceback__)
         site = next((f"{f.filename.rsplit('/', 1)[-1]}:{f.name}" for f in reversed(tb) if "OpenPinch" in f.filename), "?")
         res.add_case(case, True, outcome="raises")
-        res.violate("raises", case, {"shape": name, "error": repr(exc)[:300], "where": site}, f"raises:{type(exc).__name__}:{site}:{_raise_cause(opts, prob)}")
+        res.violate("raises", case, {"shape": name, "error": repr(exc)[:300], "where": site}, f"raises:{type(exc).__name__}:{site}:{_raise_cause(opts, prob, site)}")
         return
     res.add_case(case, True, outcome=[[t.name, round(S.num(t.Qh), 4), round(S.num(t.Qc), 4)] for t in out.targets], transitions=2)
     # re-validates and round-trips through JSON
@@ -229,17 +229,22 @@ def _env_cause(x, prob):
     return "other"
 
 
-def _raise_cause(opts, prob):
-    """Narrow cause class of an exception: the option that switches the failing code path on (independent of other deviations)."""
-    if opts.get("DO_INDIRECT_PROCESS_TARGETING") is True:
-        return "DO_INDIRECT_PROCESS_TARGETING=True"
-    if opts.get("DO_AREA_TARGETING") is True:
+def _raise_cause(opts, prob, site=""):
+    """Narrow cause class of an exception: the option that switches the failing code path on (independent of other deviations).
+    When the preconditions of two recorded findings hold at once (both options on, a zone without duty), which of the two code
+    paths is reached first depends on the order of the zones: the module in which the exception was raised tells them apart."""
+    in_indirect = site.startswith("indirect_integration_entry.py")
+    if opts.get("DO_AREA_TARGETING") is True and not (in_indirect and opts.get("DO_INDIRECT_PROCESS_TARGETING") is True):
         duty = {}
         for st in prob["streams"]:
             q = st["heat_flow"]["value"] if isinstance(st["heat_flow"], dict) else st["heat_flow"]
-            duty[st["zone"]] = duty.get(st["zone"], 0.0) + abs(q)
+            # with unit-operation targeting every stream is a zone of its own
+            key = (st["zone"], st["name"]) if opts.get("DO_DIRECT_OPERATION_TARGETING") is True else st["zone"]
+            duty[key] = duty.get(key, 0.0) + abs(q)
         if any(v == 0.0 for v in duty.values()):
             return "DO_AREA_TARGETING=True:a-zone-whose-streams-carry-no-duty"
+    if opts.get("DO_INDIRECT_PROCESS_TARGETING") is True:
+        return "DO_INDIRECT_PROCESS_TARGETING=True"
     return ",".join(f"{k}={v}" for k, v in sorted(opts.items())) or "defaults"
 
 
